@@ -37,6 +37,7 @@ def main():
             sys.stdout.flush()
     finally:
         subprocess.run(['git', '-C', '/repo', 'checkout', '--', '.'])
+        subprocess.run(['git', '-C', VERIF, 'checkout', '--', 'evidence'])
     return 0
 
 
